@@ -292,10 +292,10 @@ package jsonschema
 //@   reject[C12] "uniqueItems:" exists i int, j int :: 0 <= j && j < i && i < rvlen(instance) && eqv(rvindex(instance, i), rvindex(instance, j))
 //@   noreads Schema: Title, Description, Comment, Default, Examples, Deprecated, ReadOnly, WriteOnly, Format, ContentEncoding, ContentMediaType, ContentSchema, Defs, Definitions, Extra, PropertyOrder, Vocabulary
 //@   loopinv rsframe: st.rs == rs
-//@   ensures[C07] noleak1: err != nil && callerAnns != nil ==> callerAnns.allItems == old(callerAnns.allItems) && callerAnns.endIndex == old(callerAnns.endIndex) && callerAnns.allProperties == old(callerAnns.allProperties)
-//@   ensures[C07] noleak2: err != nil && callerAnns != nil ==> callerAnns.evaluatedIndexes == old(callerAnns.evaluatedIndexes) && callerAnns.evaluatedProperties == old(callerAnns.evaluatedProperties)
-//@   ensures[C07] noleak3: err != nil && callerAnns != nil ==> newOrNil(callerAnns.evaluatedIndexes) && newOrNil(old(callerAnns.evaluatedIndexes)) && (forall k int :: has(callerAnns.evaluatedIndexes, k) == old(has(callerAnns.evaluatedIndexes, k)))
-//@   ensures[C07] noleak4: err != nil && callerAnns != nil ==> newOrNil(callerAnns.evaluatedProperties) && newOrNil(old(callerAnns.evaluatedProperties)) && (forall k string :: has(callerAnns.evaluatedProperties, k) == old(has(callerAnns.evaluatedProperties, k)))
+//@   ensures[C07] noleak1 uses c1,c2,c3,c4,c5,anns: err != nil && callerAnns != nil ==> callerAnns.allItems == old(callerAnns.allItems) && callerAnns.endIndex == old(callerAnns.endIndex) && callerAnns.allProperties == old(callerAnns.allProperties)
+//@   ensures[C07] noleak2 uses c1,c2,c3,c4,c5,anns: err != nil && callerAnns != nil ==> callerAnns.evaluatedIndexes == old(callerAnns.evaluatedIndexes) && callerAnns.evaluatedProperties == old(callerAnns.evaluatedProperties)
+//@   ensures[C07] noleak3 uses c1,c2,c3,c4,c5,anns: err != nil && callerAnns != nil ==> newOrNil(callerAnns.evaluatedIndexes) && newOrNil(old(callerAnns.evaluatedIndexes)) && (forall k int :: has(callerAnns.evaluatedIndexes, k) == old(has(callerAnns.evaluatedIndexes, k)))
+//@   ensures[C07] noleak4 uses c1,c2,c3,c4,c5,anns: err != nil && callerAnns != nil ==> newOrNil(callerAnns.evaluatedProperties) && newOrNil(old(callerAnns.evaluatedProperties)) && (forall k string :: has(callerAnns.evaluatedProperties, k) == old(has(callerAnns.evaluatedProperties, k)))
 //@   loopinv c1: callerAnns != nil ==> annsOwned(callerAnns)
 //@   loopinv c2: callerAnns != nil ==> callerAnns.allItems == old(callerAnns.allItems) && callerAnns.endIndex == old(callerAnns.endIndex) && callerAnns.allProperties == old(callerAnns.allProperties)
 //@   loopinv c3: callerAnns != nil ==> callerAnns.evaluatedIndexes == old(callerAnns.evaluatedIndexes) && callerAnns.evaluatedProperties == old(callerAnns.evaluatedProperties)
